@@ -80,6 +80,11 @@ def opRecv (op : String) (a0 : List String) (st : DrvState) : Option (DrvState Ã
     let bad â† natArg bad
     let s' â† Recv.step s (.put { inst := inst, ts := â† natArg ts, bad := bad != 0 })
     pure ({ st with recv := some s' }, "ok")
+  | "recv.putother", [_inst, ts] => do
+    -- a file of another registered kind: not a snapshot, invisible to the receiver
+    let _ â† st.recv
+    let _ â† natArg ts
+    pure (st, "ok")
   | "recv.rm", [inst, ts] => do
     let s â† st.recv
     let s' â† Recv.step s (.rm inst (â† natArg ts))
